@@ -146,13 +146,20 @@ def parseRoom (raw : Bool) (rr : RoomRow) : Except Err Room :=
 
 /-! ### ordering of the rows when they are read -/
 
+/-- stable insertion sort (Rust's `sort_by` is stable): `x` goes before the first `y` with `le x y` -/
+def insertBy {α : Type} (le : α → α → Bool) (x : α) : List α → List α
+  | [] => [x]
+  | y :: t => if le x y then x :: y :: t else y :: insertBy le x t
+
+def sortBy {α : Type} (le : α → α → Bool) (l : List α) : List α := l.foldr (insertBy le) []
+
 def sortUsers (newestFirst : Bool) (l : List UserRow) : List UserRow :=
-  if newestFirst then l.mergeSort (fun a b => decide (b.date ≤ a.date))
-  else l.mergeSort (fun a b => decide (a.date ≤ b.date))
+  if newestFirst then sortBy (fun a b => decide (b.date ≤ a.date)) l
+  else sortBy (fun a b => decide (a.date ≤ b.date)) l
 
 def sortRights (newestFirst : Bool) (l : List RightRow) : List RightRow :=
-  if newestFirst then l.mergeSort (fun a b => decide (b.date ≤ a.date))
-  else l.mergeSort (fun a b => decide (a.date ≤ b.date))
+  if newestFirst then sortBy (fun a b => decide (b.date ≤ a.date)) l
+  else sortBy (fun a b => decide (a.date ≤ b.date)) l
 
 def sortGroup (newestFirst : Bool) (g : GroupRow) : GroupRow :=
   { g with rights := sortRights newestFirst g.rights, users := sortUsers newestFirst g.users,
